@@ -52,6 +52,14 @@ func ruleF7(c *an.Ctx) {
 			})
 			detail := "every return after the failure was recorded reports false"
 			if bad != nil {
+				// the verdict may be a flag rather than a constant: path-sensitive search over the
+				// boolean phi web, started after the marker was written with every flag valuation
+				if ok, _ := allCore(allSite{fn: fn, S: in, ok: func(an.Rel) bool { return false }, desc: "failure recorded"}, nil, 0); ok {
+					bad = nil
+					detail = "after the failure was recorded no return can yield true (flag web explored path-sensitively)"
+				}
+			}
+			if bad != nil {
 				detail = "the job's failure marker is written, but a return reachable afterwards (" + c.P.Pos(bad.Pos()) + ") does not report false: the caller treats the outputs as verified and carries on, and the recorded failure is hidden by the state of the next phase"
 			}
 			c.Check("F7", "recorded-failure-is-a-false-verdict@"+an.FnName(fn), in.Pos(), bad == nil, detail)
@@ -272,12 +280,25 @@ func ruleF10(c *an.Ctx) {
 			in := cs.(ssa.Instruction)
 			w := an.Query{Fn: m, Target: func(x ssa.Instruction) bool { return x == in },
 				Barrier: func(x ssa.Instruction) bool {
-					st, ok := x.(*ssa.Store)
-					if !ok {
-						return false
+					isStore := func(y ssa.Instruction) bool {
+						st, ok := y.(*ssa.Store)
+						if !ok {
+							return false
+						}
+						_, f := an.FieldOfAddr(st.Addr)
+						return f == chunks
 					}
-					_, f := an.FieldOfAddr(st.Addr)
-					return f == chunks
+					if isStore(x) {
+						return true
+					}
+					// a private helper that resets the list on every path
+					if cl := an.AsCallAny(x); cl != nil {
+						if h := cl.Common().StaticCallee(); h != nil && h.Blocks != nil && h.Pkg == m.Pkg && h != runSplit {
+							md := &an.MustDo{Pred: isStore, Depth: 1}
+							return md.Fn(h)
+						}
+					}
+					return false
 				}}.Find()
 			c.Check("F10", "resubmitted-split-discards-old-chunk-list@"+an.FnName(m), in.Pos(), w == nil,
 				"the split job is submitted without Fork.chunks having been reset: doChunks builds the chunk list only when it is empty, so chunks loaded at re-attach from the `_stage_defs` of a split that failed afterwards are reused and the new split's chunks are never created; "+c.WitnessString(w))
